@@ -16,6 +16,7 @@ import (
 type halfPipe struct {
 	ch     chan []byte
 	closed bool
+	reset  bool // the endpoint went away abortively (RST): reads fail instead of ending
 	rest   []byte
 }
 
@@ -25,6 +26,10 @@ func (h *halfPipe) send(b []byte) {
 	if len(b) > 0 && !h.closed {
 		h.ch <- append([]byte(nil), b...)
 	}
+}
+func (h *halfPipe) abort() {
+	h.reset = true
+	h.closeSend()
 }
 func (h *halfPipe) closeSend() {
 	if !h.closed {
@@ -52,6 +57,7 @@ func newTCPConn(name string) *tcpConn {
 }
 
 var errClosedConn = errors.New("use of closed network connection")
+var errConnReset = errors.New("read: connection reset by peer")
 
 func (c *tcpConn) Read(p []byte) (int, error) {
 	if c.closed {
@@ -61,6 +67,9 @@ func (c *tcpConn) Read(p []byte) (int, error) {
 		select {
 		case seg, ok := <-c.in.ch:
 			if !ok {
+				if c.in.reset {
+					return 0, errConnReset
+				}
 				return 0, io.EOF
 			}
 			c.in.rest = seg
@@ -74,7 +83,7 @@ func (c *tcpConn) Read(p []byte) (int, error) {
 }
 
 func (c *tcpConn) Write(p []byte) (int, error) {
-	if c.closed || c.outEOF {
+	if c.closed || c.outEOF || c.in.reset {
 		return 0, errClosedConn
 	}
 	c.out.Write(p)
@@ -182,10 +191,15 @@ func VerifC04Tunnel() {
 
 	// one end finishes sending and closes
 	clientFirst := vf.Choice("client-closes-first", 2) == 1
+	abortive := vf.Choice("first-close-is-a-reset", 2) == 1 // RST instead of FIN: the proxy's read fails
+	first := target
 	if clientFirst {
-		client.in.closeSend()
+		first = client
+	}
+	if abortive {
+		first.in.abort()
 	} else {
-		target.in.closeSend()
+		first.in.closeSend()
 	}
 	vf.Quiesce()
 	// after the close everything sent before it has arrived (also bytes parked until then)
